@@ -89,6 +89,12 @@ CHECKS = {
         design_ref="§6 C07",
         note="open finding F8 (SQL materialization whose upstream is rebuilt by process()) excluded by matcher+signature; the as-coded transcription of _process_recursive (hook-call prediction) is not part of the model: conformance is to the abstract payload machine",
     ),
+    "C09": dict(
+        technique="TLA+ spec PoolHistory (TLC exhaustive to depth 2-3 + TLC simulation to depth 6-8 over a shared pool) + replay with deep fingerprints of every pool member and leaf payload after every step",
+        text="TLC generates histories that interleave factory calls on ANY member of a shared pool (9 unary operations, chain, join, materialization, transfers over an iteration leaf and two SQL leaves) with compile, execute, process, diagnose and rejected requests on ANY member - exhaustively to depth 2 (quick) / 3 (thorough) and by seeded simulation to depth 6 (quick) / 8 (thorough). The specification states persistence as the action property [][pool'[k] = pool[k]]_vars. The replay performs every history on real objects and after EVERY step re-fingerprints EVERY pool member (repr, str, hash, columns, bounds), the contents of every leaf payload (RowSequence rows; SQL Payload where-list and columns_available keys), recompiles every relation compiled before (identical SQL text) and re-executes every relation executed before (identical rows); finally the whole build sequence is repeated from the same leaves and the twins must be == with equal hashes; every built relation must be hashable.",
+        design_ref="§6 C09",
+        note="histories beyond the exhaustive depth are sampled (VERIF_SEED); finding F5 (unhashable Sort / sequence) fixed in the code",
+    ),
     "C10": dict(
         technique="TLA+ spec ProcHistory: action property WriteOnce and invariant EvalOnce on the abstract payload machine (TLC) + conformance replay (payload object identity across the history, TypeError on illegal attach, leaf iteration counts)",
         text="On the ProcHistory state machine TLC checks [][payload set => unchanged]_vars and evals[m] <= 1 for every history. The replay performs each history for real and checks after every step that each materialization's payload, once set, stays the identical object; that attach_payload succeeds only on an empty marker and raises TypeError (changing nothing) on leaves, operation relations and filled markers; that payload rows equal the upstream's content; and that the counting leaf below the materializations is iterated no more often than evaluating every shared materialization's upstream once requires, over the whole history (process twice, execute after process, two branches sharing one materialization).",
